@@ -1,3 +1,366 @@
-pub fn run(_cli: common::Cli) -> ! {
-    common::machinery("not built yet")
+//! C04: no client input can crash the handler or make it allocate unboundedly.
+//!
+//! Fault enumeration: in each of ten protocol states (reached by the honest prefix) one hostile
+//! frame from a structured alphabet is injected, followed by silence or by the client's EOF.
+use crate::sim::*;
+use common::refs::codec::{self, W, varint};
+use common::{Cli, Report, Violation, hex, par_for};
+use serde::{Deserialize, Serialize};
+use serde_json::json;
+use std::collections::HashSet;
+use std::sync::Mutex;
+use std::sync::atomic::{AtomicU64, Ordering};
+
+#[derive(Clone, Debug, Serialize, Deserialize)]
+struct Item {
+    state: usize,
+    max: i32,
+    /// class of the hostile input (also the violation key suffix)
+    class: String,
+    /// raw bytes injected (before encryption)
+    bytes_hex: String,
+    /// the client hangs up after the bytes (otherwise it stays silent)
+    eof: bool,
+    /// the input is malformed by construction: the connection must end with an error and grant nothing
+    malformed: bool,
+    /// the declared outer length is out of (0, max]: must be refused without waiting for anything
+    refuse_now: bool,
+}
+
+#[derive(Clone)]
+enum Part {
+    Raw(Vec<u8>),
+    Len { data: Vec<u8>, string: bool },
+    Enum { value: i32, n: i32, first: i32 },
+}
+
+const SECRET: &[u8] = b"c04-cookie-secret";
+
+fn state_name(s: usize) -> &'static str {
+    ["before-handshake", "status-after-handshake", "status-after-request", "login-after-handshake", "awaiting-session-cookie", "awaiting-auth-cookie", "awaiting-encryption-response", "awaiting-login-ack", "configuration", "configuration-routing"][s]
+}
+
+fn prefix(state: usize) -> Vec<Step> {
+    let hs = |n| st(When::Idle, Act::Handshake { proto: 769, host: "h".into(), port: 25565, next: n });
+    let ls = st(When::Idle, Act::LoginStart { name: "Bob".into(), uuid: UUID1 });
+    let sc = st(When::Idle, Act::Cookie { key: "passage:session".into(), payload: None });
+    let ac = st(When::Idle, Act::Cookie { key: "passage:authentication".into(), payload: None });
+    let enc = st(When::Idle, Act::EncResponse(EncKind::Honest));
+    let ack = st(When::Idle, Act::LoginAck);
+    let ci = st(When::Idle, Act::ClientInfo { locale: "en_us".into() });
+    match state {
+        0 => vec![],
+        1 => vec![hs(1)],
+        2 => vec![hs(1), st(When::Idle, Act::StatusRequest)],
+        3 => vec![hs(2)],
+        4 => vec![hs(2), ls],
+        5 => vec![hs(3), ls, sc],
+        6 => vec![hs(3), ls, sc, ac],
+        7 => vec![hs(3), ls, sc, ac, enc],
+        8 => vec![hs(3), ls, sc, ac, enc, ack],
+        _ => vec![hs(3), ls, sc, ac, enc, ack, ci],
+    }
+}
+
+/// the packets a client may legitimately send in the state, as (id, parts)
+fn packets(state: usize) -> Vec<(i32, Vec<Part>)> {
+    let s = |x: &str| Part::Len { data: x.as_bytes().to_vec(), string: true };
+    let b = |x: Vec<u8>| Part::Len { data: x, string: false };
+    match state {
+        0 => vec![(0, vec![Part::Raw(varint(769)), s("mc.example.org"), Part::Raw(vec![0x63, 0xdd]), Part::Enum { value: 2, n: 3, first: 1 }])],
+        1 => vec![(0, vec![])],
+        2 => vec![(1, vec![Part::Raw(vec![0, 0, 0, 0, 0, 0, 0, 42])])],
+        3 => vec![(0, vec![s("Bob_the_builder"), Part::Raw(UUID1.to_be_bytes().to_vec())])],
+        4 => vec![(4, vec![s("passage:session"), Part::Raw(vec![1]), b(br#"{"id":"116934ee-8b5a-49d4-8b54-af0b4d6dbe5f","server_address":"h","server_port":1}"#.to_vec())])],
+        5 => vec![(4, vec![s("passage:authentication"), Part::Raw(vec![1]), b((0..40u8).collect())])],
+        6 => vec![(1, vec![b(vec![0x11; 128]), b(vec![0x22; 128])])],
+        7 => vec![(3, vec![])],
+        _ => vec![
+            (0, vec![s("en_us"), Part::Raw(vec![10]), Part::Enum { value: 0, n: 3, first: 0 }, Part::Raw(vec![1, 0x7f]), Part::Enum { value: 1, n: 2, first: 0 }, Part::Raw(vec![0, 1]), Part::Enum { value: 0, n: 3, first: 0 }]),
+            (4, vec![Part::Raw(vec![0, 0, 0, 0, 0, 0, 1, 2])]),
+            (6, vec![Part::Raw(vec![7; 16]), Part::Enum { value: 0, n: 8, first: 0 }]),
+            (2, vec![s("minecraft:brand"), Part::Raw(b"vanilla".to_vec())]),
+        ],
+    }
+}
+
+fn render(id: i32, parts: &[Part]) -> Vec<u8> {
+    let mut body = vec![];
+    for p in parts {
+        match p {
+            Part::Raw(r) => body.extend_from_slice(r),
+            Part::Len { data, .. } => {
+                body.extend(varint(data.len() as i32));
+                body.extend_from_slice(data);
+            }
+            Part::Enum { value, .. } => body.extend(varint(*value)),
+        }
+    }
+    codec::frame(id, &body)
+}
+
+/// renders with part `k` replaced by raw bytes
+fn render_with(id: i32, parts: &[Part], k: usize, replacement: Vec<u8>) -> Vec<u8> {
+    let mut ps = parts.to_vec();
+    ps[k] = Part::Raw(replacement);
+    render(id, &ps)
+}
+
+fn items_for(state: usize, max: i32, thorough: bool) -> Vec<Item> {
+    let mut v = vec![];
+    let mut push = |class: &str, bytes: Vec<u8>, eof: bool, malformed: bool, refuse_now: bool| {
+        v.push(Item { state, max, class: class.into(), bytes_hex: hex(&bytes), eof, malformed, refuse_now })
+    };
+    // A. outer length alphabet: the prefix alone, then silence (out of range) or EOF (in range)
+    let outer: Vec<(String, Vec<u8>, bool)> = vec![
+        ("outer-len:-1".into(), varint(-1), true),
+        ("outer-len:min".into(), varint(i32::MIN), true),
+        ("outer-len:0".into(), varint(0), true),
+        ("outer-len:1".into(), varint(1), false),
+        ("outer-len:max-1".into(), varint(max - 1), max - 1 <= 0),
+        ("outer-len:max".into(), varint(max), false),
+        ("outer-len:max+1".into(), varint(max.saturating_add(1)), true),
+        ("outer-len:i32-max".into(), varint(i32::MAX), max != i32::MAX),
+        ("outer-len:overlong-varint".into(), vec![0x80, 0x80, 0x80, 0x80, 0x80, 0x01], true),
+        ("outer-len:5xff".into(), vec![0xff; 5], true),
+    ];
+    for (class, bytes, out_of_range) in outer {
+        if out_of_range {
+            push(&class, bytes.clone(), false, true, true);
+        }
+        push(&format!("{class}+eof"), bytes, true, true, false);
+    }
+    for (id, parts) in packets(state) {
+        let honest = render(id, &parts);
+        if honest.len() > max as usize {
+            continue;
+        }
+        // C. truncation at every offset, then EOF
+        for cut in 0..honest.len() {
+            push("truncated-frame", honest[..cut].to_vec(), true, true, false);
+        }
+        for (k, p) in parts.iter().enumerate() {
+            match p {
+                Part::Len { data, string } => {
+                    let actual = data.len() as i32;
+                    let remainder: i32 = parts[k + 1..]
+                        .iter()
+                        .map(|p| match p {
+                            Part::Raw(r) => r.len() as i32,
+                            Part::Len { data, .. } => data.len() as i32 + varint(data.len() as i32).len() as i32,
+                            Part::Enum { value, .. } => varint(*value).len() as i32,
+                        })
+                        .sum::<i32>()
+                        + actual;
+                    // B. inner length prefixes (the data bytes stay as they are)
+                    for (name, l, bad) in [
+                        ("inner-len:-1", -1, true),
+                        ("inner-len:min", i32::MIN, true),
+                        ("inner-len:0", 0, false),
+                        ("inner-len:actual-1", actual - 1, false),
+                        ("inner-len:actual+1", actual + 1, false),
+                        ("inner-len:remainder+1", remainder + 1, true),
+                        ("inner-len:65536", 65_536, true),
+                        ("inner-len:i32-max", i32::MAX, true),
+                    ] {
+                        let mut rep = varint(l);
+                        rep.extend_from_slice(data);
+                        push(name, render_with(id, &parts, k, rep.clone()), false, bad, false);
+                        push(&format!("{name}+eof"), render_with(id, &parts, k, rep), true, bad, false);
+                    }
+                    // D. invalid UTF-8
+                    if *string && !data.is_empty() {
+                        let mut rep = varint(actual);
+                        rep.extend((0..data.len()).map(|i| [0xff, 0xc0, 0xfe, 0x80][i % 4]));
+                        push("invalid-utf8", render_with(id, &parts, k, rep), true, true, false);
+                    }
+                }
+                Part::Enum { n, first, .. } => {
+                    for (name, o) in [("enum:-1", -1), ("enum:first-invalid", first + n), ("enum:i32-max", i32::MAX), ("enum:before-first", first - 1)] {
+                        push(name, render_with(id, &parts, k, varint(o)), true, true, false);
+                    }
+                }
+                Part::Raw(_) => {}
+            }
+        }
+    }
+    // F. RSA ciphertext shapes where an Encryption Response is expected
+    if state == 6 {
+        for n in [0usize, 1, 127, 128, 129, 256, 1024] {
+            let body = W::new().bytes(&vec![0xa5; n]).bytes(&vec![0x5a; n]).done();
+            push("rsa-garbage", codec::frame(1, &body), true, true, false);
+        }
+    }
+    // G. every [len][id][b] frame and two-byte bodies over a boundary alphabet, then EOF
+    let ids: Vec<i32> = (0..=0x20).chain([0x7f]).collect();
+    for id in &ids {
+        push("tiny-frame", codec::frame(*id, &[]), true, false, false);
+        if thorough || [0usize, 3, 6, 8].contains(&state) {
+            for b in 0..=255u8 {
+                push("tiny-frame", codec::frame(*id, &[b]), true, false, false);
+            }
+        }
+        let alpha = [0x00u8, 0x01, 0x02, 0x05, 0x7f, 0x80, 0x81, 0xfe, 0xff, 0x10, 0x20, 0x40, 0xc0, 0xe0, 0xf0, 0x0a];
+        if thorough || [0usize, 6, 8].contains(&state) {
+            for a in alpha {
+                for b in alpha {
+                    push("tiny-frame", codec::frame(*id, &[a, b]), true, false, false);
+                }
+            }
+        }
+    }
+    v
+}
+
+fn build(it: &Item) -> Case {
+    let mut case = Case::default();
+    case.cfg.auth_secret = Some(SECRET.to_vec());
+    case.cfg.max_packet_length = it.max;
+    case.script = prefix(it.state);
+    case.script.push(st(When::Idle, Act::Raw(common::unhex(&it.bytes_hex))));
+    if it.eof {
+        case.script.push(st(When::With, Act::Eof));
+    }
+    if it.state == 9 {
+        case.adapters.disc_ms = 40_000;
+    }
+    case.echo = Echo::Prompt;
+    case.horizon_ms = 100_000;
+    case
+}
+
+fn judge(it: &Item, baseline_packets: usize, obs: &Obs) -> Vec<(String, String)> {
+    let mut v = vec![];
+    let st = state_name(it.state);
+    let mut bad = |k: String, t: String| v.push((k, t));
+    // (i) no panic
+    if let RunResult::Panic(p) = &obs.result {
+        bad(format!("panic:{}", it.class.trim_end_matches("+eof")), format!("state {st}: handler panicked: {p}"));
+        return v;
+    }
+    if obs.steps_done < prefix(it.state).len() + 1 {
+        // the hostile bytes were never sent (the prefix did not get that far): not a verdict
+        bad("machinery:prefix-did-not-complete".into(), format!("state {st}: only {} steps done; result {:?}", obs.steps_done, obs.result));
+        return v;
+    }
+    // (iii) memory in proportion to the configured maximum
+    let bound = 2 * it.max as usize + 64 * 1024;
+    if obs.max_alloc > bound {
+        bad(format!("allocation:{}", it.class.trim_end_matches("+eof")), format!("state {st}: a single allocation of {} bytes was requested; max_packet_length is {}", obs.max_alloc, it.max));
+    }
+    // (ii) after the client's EOF the handler returns at once
+    if it.eof {
+        match obs.eof_at {
+            Some(at) => {
+                if matches!(obs.result, RunResult::Horizon) || obs.end_ms != at {
+                    bad("keeps-running-after-eof".into(), format!("state {st}: EOF delivered at {at} ms, handler ended at {} ms with {:?}", obs.end_ms, obs.result));
+                }
+            }
+            None => {
+                // the handler ended before ever reading the EOF: fine as long as it ended
+                if matches!(obs.result, RunResult::Horizon) {
+                    bad("keeps-running-after-eof".into(), format!("state {st}: handler never noticed the EOF"));
+                }
+            }
+        }
+    }
+    // (iv) out-of-range outer length is refused before the body is awaited
+    if it.refuse_now {
+        let sent_at = 0; // the whole prefix runs at virtual time 0 (state 9: Client Information at 0 as well)
+        if !obs.result.is_err() || obs.end_ms != sent_at {
+            bad(format!("length-not-refused-at-once:{}", it.class), format!("state {st}: declared length out of (0, {}] and nothing else sent; handler result {:?} at {} ms", it.max, obs.result, obs.end_ms));
+        } else if !matches!(&obs.result, RunResult::Err { kind, .. } if kind == "IllegalPacketLength") {
+            bad(format!("length-refused-with-other-error:{}", it.class), format!("state {st}: {:?}", obs.result));
+        }
+    }
+    // (v) malformed input ends the connection with an error and nothing is granted afterwards
+    if it.malformed && (it.eof || it.refuse_now) {
+        if !obs.result.is_err() {
+            bad(format!("malformed-not-an-error:{}", it.class.trim_end_matches("+eof")), format!("state {st}: result {:?}", obs.result));
+        }
+        if obs.packets.len() > baseline_packets {
+            let extra: Vec<&str> = obs.packets[baseline_packets..].iter().map(|(_, p)| p.kind()).collect();
+            if extra.iter().any(|k| matches!(*k, "LoginSuccess" | "Transfer" | "StoreCookie" | "StatusResponse" | "Pong")) {
+                bad(format!("reply-after-malformed-frame:{}", it.class.trim_end_matches("+eof")), format!("state {st}: {extra:?} sent after the malformed frame"));
+            }
+        }
+    }
+    v
+}
+
+pub fn run(cli: Cli) -> ! {
+    let rep = Report::new("C04", cli.tier, "fault_enumeration");
+    if let Some(case) = cli.replay.clone() {
+        let it: Item = serde_json::from_value(case["item"].clone()).unwrap_or_else(|e| common::machinery(&format!("bad replay: {e}")));
+        let base = crate::sim::run(&{
+            let mut c = build(&it);
+            c.script.truncate(prefix(it.state).len());
+            c.horizon_ms = 1;
+            c
+        });
+        let obs = crate::sim::run(&build(&it));
+        println!("item: {}", serde_json::to_string(&it).unwrap());
+        println!("state: {}", state_name(it.state));
+        println!("observed: {}", serde_json::to_string_pretty(&obs.to_json()).unwrap());
+        for (k, t) in judge(&it, base.packets.len(), &obs) {
+            rep.violation(Violation { key: k, text: t, replay: case.clone(), weight: 0 });
+        }
+        rep.set("evaluations", json!(1));
+        rep.set("distinct_nontrivial", json!(2));
+        rep.set("rule", json!("replay of one item"));
+        rep.finish();
+    }
+    let thorough = cli.tier.thorough();
+    let mut items: Vec<Item> = vec![];
+    for state in 0..10 {
+        let maxes: Vec<i32> = match state {
+            0 => vec![1, 64, 10_000, 2_097_151],
+            1..=5 => vec![64, 10_000, 2_097_151],
+            _ => vec![10_000, 2_097_151],
+        };
+        for (mi, max) in maxes.iter().enumerate() {
+            let mut its = items_for(state, *max, thorough);
+            if mi > 0 {
+                // the tiny-frame sweep does not depend on the maximum: keep it for the first maximum only
+                its.retain(|i| i.class != "tiny-frame");
+            }
+            items.extend(its);
+        }
+    }
+    // number of clientbound packets the honest prefix alone produces, per state
+    let baseline: Vec<usize> = (0..10)
+        .map(|s| {
+            let mut c = build(&Item { state: s, max: 10_000, class: String::new(), bytes_hex: String::new(), eof: false, malformed: false, refuse_now: false });
+            c.script.truncate(prefix(s).len());
+            c.horizon_ms = 1;
+            crate::sim::run(&c).packets.len()
+        })
+        .collect();
+    let distinct: Mutex<HashSet<String>> = Mutex::new(HashSet::new());
+    let errors = AtomicU64::new(0);
+    par_for(items.len(), |i| {
+        let it = &items[i];
+        let obs = crate::sim::run(&build(it));
+        if obs.result.is_err() {
+            errors.fetch_add(1, Ordering::Relaxed);
+        }
+        distinct.lock().unwrap().insert(format!("{}|{}|{}", it.state, it.class, obs.result.kind()));
+        for (k, t) in judge(it, baseline[it.state], &obs) {
+            rep.violation(Violation { key: k, text: format!("{t}; injected {}", &it.bytes_hex[..it.bytes_hex.len().min(80)]), replay: json!({"item": it}), weight: (it.state * 100_000 + it.bytes_hex.len()) as u64 });
+        }
+    });
+    let d = distinct.lock().unwrap().len() as u64;
+    rep.require("runs ending in an error", errors.load(Ordering::Relaxed), 1000);
+    rep.require("distinct (state, class, result) triples", d, 100);
+    rep.set("evaluations", json!(items.len()));
+    rep.set("distinct_nontrivial", json!(d));
+    rep.set("states", json!(10));
+    rep.set("exhaustive", json!(true));
+    rep.set("rule", json!("one hostile frame per run in each of 10 protocol states x configured maximum {1,64,10000,2097151}: 10 outer length prefixes (alone, and followed by EOF), 8 inner length prefixes per length-prefixed field of every packet legal in the state, truncation of the honest frame at every byte offset + EOF, invalid UTF-8 per string, 4 out-of-range ordinals per enum, RSA ciphertext shapes, every [len][id][b] frame for id 0..0x20,0x7f and b 0..255 and 256 two-byte bodies. distinct_nontrivial = distinct (state, class, result)."));
+    rep.sample(json!({"item": items[0]}));
+    rep.sample(json!({"item": items[items.len() / 2]}));
+    rep.sample(json!({"item": items[items.len() - 1]}));
+    rep.assume("'every byte sequence' is covered as well-formed transcripts with one mutated frame per run (deviation bound 1) from the stated alphabet");
+    rep.assume("the largest single allocation is measured by a counting global allocator armed only while the handler runs (harness transport and adapters excluded); bound 2*max_packet_length + 64 KiB");
+    rep.finish()
 }
